@@ -412,7 +412,18 @@ def run(ck):
         sum(1 for i in ue.walk() if ue.nodes[i].get('callee', '').endswith('::substr')) >= 2
     ck.ob('C38.surrogate', 'C38.surrogate/second-unit', two_reads, ue.loc(), 'after a high surrogate the decoder reads a second \\uXXXX unit')
     # ---- append_utf8 table -----------------------------------------------------------------------
-    au = methods[JP + 'append_utf8']
+    au = methods.get(JP + 'append_utf8')
+    if au is None:
+        # renamed / replaced: the encoder is whatever the \u decoder hands the code point to
+        cands = [methods[c_] for q in esc_fns for i in methods[q].walk()
+                 for c_ in [methods[q].nodes[i].get('callee')] if c_ in methods and 'hex' not in c_ and not c_.split('::')[-1].startswith('parse') and
+                 any('unsigned int' in (p_.get('t') or '') or 'char32_t' in (p_.get('t') or '') for p_ in methods[c_].params)]
+        if not cands:
+            raise AnalysisBroken('the UTF-8 encoder called by the \\u decoder was not found')
+        au = cands[0]
+    appends = [i for i in au.walk() if (au.nodes[i].get('callee') or '').endswith(('::push_back', '::append')) or au.nodes[i].get('op') == '+=']
+    ck.ob('C38.utf8', 'C38.utf8/length-carrying-output', bool(appends) and not any('char *' == (p_.get('t') or '') for p_ in au.params), au.loc(),
+          'the UTF-8 encoder appends its bytes to a std::string (length carried explicitly): a NUL-terminated char buffer would drop U+0000')
     lits = sorted({int(au.nodes[i]['v']) for i in au.walk() if au.nodes[i]['k'] == 'IntegerLiteral'})
     th = sorted(const_value(au, c[2]) for c in (comparison(au, i) for i in au.walk()) if c and c[0] == '<=')
     ck.ob('C38.utf8', 'C38.utf8/thresholds', th == [0x7F, 0x7FF, 0xFFFF], au.loc(), 'append_utf8 switches length at 0x7F / 0x7FF / 0xFFFF (found %s)' % [hex(x) for x in th])
